@@ -9,7 +9,7 @@
        the current value is never the head);
      - padding cells have rank 0 in both planes and are never written;
      - image-plane values only grow, stay below the mask plane; the mask plane is constant. *)
-From Coq Require Import ZArith List Bool.
+From Coq Require Import ZArith List Bool FMapPositive.
 From Centro Require Import Base.Sx Model.Recon.
 Import ListNotations.
 Open Scope Z_scope.
@@ -140,3 +140,41 @@ Definition relinked (S cur cv : Z) (s : st) (stride : Z) : st :=
     mkst (put (vals s) nb newv) (put (put prv1 nb link) nnext2 nb)
          (put (put nxt1 nb nnext2) link nb) (drops s)
   else s.
+
+(* boolean form of Ord for a position table given as an array (quadratic; used for the Example and
+   evaluated per instance on small cases) *)
+Definition ord_check (g : geom) (strides : list Z) (s : st) (cur : Z) (posa : arr) : bool :=
+  let n := 2 * gS g in
+  let pos := sel posa in
+  forallb (fun x =>
+    ((sel (nxt s) x =? -1) || (pos x <? pos (sel (nxt s) x))) &&
+    ((x =? n - 1) || (pos x <? pos (n - 1))) &&
+    ((sel (prv s) x =? -1) || (sel (nxt s) (sel (prv s) x) =? x)) &&
+    ((sel (nxt s) x =? -1) || (sel (prv s) (sel (nxt s) x) =? x)) &&
+    forallb (fun y =>
+      (negb (pos x =? pos y) || (x =? y)) &&
+      ((sel (nxt s) x =? -1) || negb ((pos x <? pos y) && (pos y <? pos (sel (nxt s) x)))) &&
+      (negb (pos x <? pos y) || (sel (vals s) y <=? sel (vals s) x))) (zrange n)) (zrange n) &&
+  forallb (fun p =>
+    negb (interior_b g p) || negb ((cur =? -1) || (pos p <? pos cur)) ||
+    forallb (fun sd => Z.min (sel (vals s) (p + sd + gS g)) (sel (vals s) p) <=? sel (vals s) (p + sd)) strides)
+    (zrange (gS g)).
+
+(* positions of the set-up state: the index in the lexsort order *)
+Definition order_pos (order : list Z) : arr :=
+  fold_left (fun a xi => put a (fst xi) (snd xi)) (combine order (zrange (zlen order))) (PositiveMap.empty Z).
+
+(* (image mask footprint offset) -> bool : the set-up state satisfies Ord with these positions *)
+Definition entry_ord_check (x : sx) : sx :=
+  let image := as_Zss (arg 0 x) in
+  let mask := as_Zss (arg 1 x) in
+  let fp := as_boolss (arg 2 x) in
+  let p := match as_Zs (arg 3 x) with
+           | [o0; o1] => prepare_offs image mask fp (fp_offsets_at fp o0 o1)
+           | _ => prepare image mask fp
+           end in
+  let order := map snd (Base.ReconSort.DescSort.sort
+                 (combine (padded_plane (p_H p) (p_W p) (p_p0 p) (p_p1 p) (img_min image) image ++
+                           padded_plane (p_H p) (p_W p) (p_p0 p) (p_p1 p) (img_min image) mask)
+                          (zrange (2 * p_S p)))) in
+  of_bool (ord_check (prep_geom p) (p_strides p) (p_st p) (p_cur p) (order_pos order)).
